@@ -60,6 +60,18 @@ CHECKS = {
           "used as environment (returns on arrival or exactly at the timeout unless busy), real arithmetic for clock values. Negative timeouts: "
           "only finality/callback clauses asserted. Bounds: history length, <=3 serve() calls per wait (cut paths counted)."),
     technique="symbolic execution of the Python AST with a symbolic clock + z3 (LRA); counterexample histories replayed on CPython with a virtual clock"),
+ "C18": dict(
+    category="other", design_ref="DESIGN.md section 4 (C18)",
+    text=("Inductive step over the real RegistryServer command handlers: from an arbitrary well-formed registry state (membership of every "
+          "(name,address) pair chosen exhaustively, every timestamp, the clock and the pruning interval solver Reals) one register/unregister/query "
+          "must agree with a reference model on reply, resulting membership, ordering (oldest first) and notification multiset; z3 decides the "
+          "pruning boundary and orderings. One iteration of the real main loop is executed on 22 datagram shapes (wrong magic, non-text/unknown "
+          "command, wrong argument counts/types, undecodable) and must never let an exception escape nor touch unnamed registrations; the TCP "
+          "receive path is run against a socket stub that hangs on recv() without a timeout."),
+    note=("Trusted: z3, interpreter, brine.load contract (C04), the accepted-socket contract. Names and addresses are drawn from small concrete "
+          "alphabets (2 known + 1 new, any letter case) -- the solver-decided part is time arithmetic and orderings. Registry clients and real "
+          "sockets are outside the claim. Three genuine defects of the pinned tree were found here and repaired in /repo (see known_findings.json)."),
+    technique="symbolic execution of the Python AST (inductive step from an arbitrary state) + z3 (LRA); replay on CPython / real TCP"),
 }
 
 NOT_YET = {}
